@@ -60,7 +60,7 @@ def UnitV.prefOffset (pre : Prefixes K) (t : Lut K) (u : UnitV K) : Bool :=
   u.dim == Dim.dTemperature && u.spelledWithPrefix pre t
 
 /-- the SI magnitude the object denotes: `scale * (x - effective offset)` -/
-def baseOf (pre : Prefixes K) (t : Lut K) (st : K × UnitV K) : K :=
+def siMagnitude (pre : Prefixes K) (t : Lut K) (st : K × UnitV K) : K :=
   toBase st.2.scale (effOffset (st.2.prefOffset pre t) st.2.scale st.2.offset) st.1
 
 end
